@@ -79,7 +79,7 @@ Lemma headers_ok_inv (h : headers) : headers_ok h = true ->
 Proof. unfold headers_ok. intros H1. apply Forall_forall. rewrite forallb_forall in H1. exact H1. Qed.
 
 Lemma readable_inv (e : exchange) : readable e = true ->
-  validate_fallback (e_uri e) = (true, false) /\ headers_ok (e_resph e) = true /\
+  snd (validate_fallback (e_uri e)) = false /\ headers_ok (e_resph e) = true /\
   (-9223372036854775808 <= e_status e < 9223372036854775808)%Z /\ e_taint e = false /\
   match e_ver e with
   | V1b3 => e_method e = s2b "GET" /\ e_reqh e = []
@@ -88,8 +88,7 @@ Lemma readable_inv (e : exchange) : readable e = true ->
 Proof.
   unfold readable. rewrite !andb_true_iff. intros ((((Hu & Hs) & Hz) & Ht) & Hv).
   split.
-  { unfold url_accepted in Hu. destruct (validate_fallback (e_uri e)) as [[|] [|]]; try discriminate.
-    reflexivity. }
+  { unfold write_taint in Hu. destruct (snd (validate_fallback (e_uri e))); [discriminate|reflexivity]. }
   split; [exact Hs|]. split; [unfold int64_b in Hz; lia|].
   split; [destruct (e_taint e); [discriminate|reflexivity]|].
   destruct (e_ver e); try exact Hv.
@@ -97,22 +96,55 @@ Proof.
   destruct (e_reqh e); [reflexivity|discriminate].
 Qed.
 
-Lemma name_not_key (n k : bytes) :
-  name_ok n = true -> forallb is_tchar k = false -> bytes_eqb (lower n) k = false.
+(* ---- Write's own refusals -------------------------------------------------------------- *)
+Theorem write_ok_url (e : exchange) (bs : bytes) :
+  write e = Ok bs -> fst (validate_fallback (e_uri e)) = true.
 Proof.
-  intros Hn Hk. destruct (bytes_eqb (lower n) k) eqn:E; [|reflexivity].
-  apply bytes_eqb_eq in E. subst k. unfold name_ok in Hn. rewrite (name_lower_tchar n Hn) in Hk.
-  discriminate.
+  intros H. apply write_ok_body in H. destruct H as [Hr _]. unfold write_refuses in Hr.
+  apply orb_false_iff in Hr. destruct Hr as [Hu _].
+  destruct (fst (validate_fallback (e_uri e))); [reflexivity|discriminate].
+Qed.
+
+Theorem write_ok_no_url_key (e : exchange) (bs : bytes) :
+  write e = Ok bs -> e_ver e = V1b2 ->
+  existsb (fun nv => bytes_eqb (lower (fst nv)) (s2b ":url")) (e_reqh e) = false.
+Proof.
+  intros H Ev. apply write_ok_body in H. destruct H as [Hr _]. unfold write_refuses in Hr.
+  apply orb_false_iff in Hr. destruct Hr as [_ Hk]. rewrite Ev in Hk. exact Hk.
+Qed.
+
+Lemma validate_fallback_pair (u : bytes) :
+  fst (validate_fallback u) = true -> snd (validate_fallback u) = false ->
+  validate_fallback u = (true, false).
+Proof. destruct (validate_fallback u) as [a b]. cbn [fst snd]. intros -> ->. reflexivity. Qed.
+
+(* ---- ASCII names ------------------------------------------------------------------------ *)
+Lemma is_ascii_lower (n : bytes) : is_ascii n = true -> is_ascii (lower n) = true.
+Proof.
+  unfold is_ascii, lower. intros H. rewrite forallb_forall in *. intros c Hc.
+  apply in_map_iff in Hc. destruct Hc as [c0 [<- Hc0]]. specialize (H c0 Hc0).
+  unfold lower_byte. destruct ((65 <=? c0) && (c0 <=? 90)) eqn:E; lia.
+Qed.
+
+Lemma ascii_lower_check (n : bytes) : is_ascii n = true -> lower_check (lower n) = Some true.
+Proof.
+  intros H. unfold lower_check. rewrite (is_ascii_lower n H), lower_idem, bytes_eqb_refl. reflexivity.
 Qed.
 
 Lemma raw_pairs_facts (h : headers) : Forall (fun nv => name_ok (fst nv) = true) h ->
-  Forall (fun kv => is_m kv = false /\ is_u kv = false /\ is_st kv = false /\
-                    lower_check (fst kv) = Some true) (raw_pairs h).
+  Forall (fun kv => lower_check (fst kv) = Some true) (raw_pairs h).
 Proof.
   intros H. unfold raw_pairs. apply Forall_map. eapply Forall_impl; [|exact H].
-  intros [n vs] Hn. cbn [fst] in Hn. unfold is_m, is_u, is_st, raw_pair. cbn [fst snd].
-  repeat split; try (apply name_not_key; [exact Hn|reflexivity]).
-  apply name_lower_check. exact Hn.
+  intros [n vs] Hn. cbn [fst] in Hn. unfold raw_pair. cbn [fst snd].
+  apply ascii_lower_check. exact Hn.
+Qed.
+
+(* a key that heads a duplicate-free key list is the key of no later pair *)
+Lemma nodup_head_not_key (k : bytes) (P : list (bytes * bytes)) :
+  NoDup (k :: map fst P) -> Forall (fun kv => bytes_eqb (fst kv) k = false) P.
+Proof.
+  intros Hn. inversion Hn as [|? ? Hni _]; subst. apply Forall_forall. intros kv Hin.
+  apply bytes_eqb_neq. intros E. apply Hni. rewrite <- E. apply in_map. exact Hin.
 Qed.
 
 Lemma NoDup_map_via {A B C} (f : A -> B) (g : A -> C) (l : list A) :
@@ -197,7 +229,12 @@ Proof.
   exists (lenN P), (enc_pairs S' ++ rest).
   split; [apply decode_encode_map_header; unfold two63, two64 in *; lia|].
   replace (lenN P) with (lenN S') by (apply isort_lenN).
-  pose proof (raw_pairs_facts _ Hnames) as Hraw.
+  assert (Hraw : Forall (fun kv => True /\ True /\ is_st kv = false /\
+                                   lower_check (fst kv) = Some true) (raw_pairs (e_resph e))).
+  { pose proof (enc_map_ok_nodup _ _ Henc) as Hnk. unfold P, resp_pairs in Hnk. cbn [map fst] in Hnk.
+    pose proof (nodup_head_not_key _ _ Hnk) as Hst. pose proof (raw_pairs_facts _ Hnames) as Hlc.
+    rewrite Forall_forall in *. intros kv Hin. specialize (Hst kv Hin). specialize (Hlc kv Hin).
+    repeat split; assumption. }
   assert (HP : Forall (fun kv => pair_readable kv /\ (is_st kv = true -> atoi (snd kv) <> None)) P).
   { apply Forall_forall. intros kv Hin. rewrite Forall_forall in Hsz. destruct (Hsz kv Hin) as [Hk Hx].
     assert (Hk63 : lenN (fst kv) < two63 /\ lenN (snd kv) < two63)
@@ -232,12 +269,13 @@ Lemma read_request_map (e : exchange) (rq rest : bytes) (s : hstate) (fuel : nat
   encode_request_map e = Ok rq -> lenN rq <= B -> B < two63 ->
   (List.length rq < fuel)%nat -> h_req s = [] ->
   (e_ver e = V1b2 -> h_uri s = e_uri e) ->
+  (e_ver e = V1b2 -> existsb (fun nv => bytes_eqb (lower (fst nv)) (s2b ":url")) (e_reqh e) = false) ->
   exists m r, decode_map_header (rq ++ rest) = Ok (m, r) /\
   dec_request_map fuel (e_ver e) m r s
   = Ok ({| h_method := e_method e; h_uri := e_uri e; h_req := canon_headers (e_reqh e);
            h_status := h_status s; h_resp := h_resp s; h_taint := h_taint s |}, rest).
 Proof.
-  intros Hv Hnames Hurl Henc HB HB63 Hfuel Hs0 Hu0.
+  intros Hv Hnames Hurl Henc HB HB63 Hfuel Hs0 Hu0 Hnourl.
   rewrite encode_request_map_pairs in Henc.
   assert (Hnd : NoDup (map (fun nv => lower (fst nv)) (e_reqh e))).
   { pose proof (enc_map_ok_nodup _ _ Henc) as Hn. unfold req_pairs in Hn. cbn [map] in Hn.
@@ -253,9 +291,24 @@ Proof.
   exists (lenN P), (enc_pairs S' ++ rest).
   split; [apply decode_encode_map_header; unfold two63, two64 in *; lia|].
   replace (lenN P) with (lenN S') by (apply isort_lenN).
-  pose proof (raw_pairs_facts _ Hnames) as Hraw.
   set (U := match e_ver e with V1b1 => [(key_url, e_uri e)] | _ => [] end).
   assert (EP : P = (key_method, e_method e) :: U ++ raw_pairs (e_reqh e)) by reflexivity.
+  assert (Hraw : Forall (fun kv => is_m kv = false /\ is_u kv = false /\ True /\
+                                   lower_check (fst kv) = Some true) (raw_pairs (e_reqh e))).
+  { pose proof (enc_map_ok_nodup _ _ Henc) as Hnk. fold P in Hnk. rewrite EP in Hnk. cbn [map fst] in Hnk.
+    pose proof (nodup_head_not_key _ _ Hnk) as Hm. apply Forall_app in Hm. destruct Hm as [_ Hm].
+    pose proof (raw_pairs_facts _ Hnames) as Hlc.
+    assert (Hu : Forall (fun kv => is_u kv = false) (raw_pairs (e_reqh e))).
+    { inversion Hnk as [|? ? _ Hnk']; subst. unfold U in Hnk'. destruct (e_ver e) eqn:Ev.
+      - cbn [app map fst] in Hnk'. exact (nodup_head_not_key _ _ Hnk').
+      - specialize (Hnourl eq_refl). unfold raw_pairs. apply Forall_map. apply Forall_forall.
+        intros nv Hin. unfold is_u, raw_pair. cbn [fst].
+        destruct (bytes_eqb (lower (fst nv)) key_url) eqn:E; [|reflexivity].
+        rewrite <- Hnourl. symmetry. apply existsb_exists. exists nv. split; [exact Hin|exact E].
+      - contradiction Hv. reflexivity. }
+    rewrite Forall_forall in *. intros kv Hin.
+    specialize (Hm kv Hin). specialize (Hu kv Hin). specialize (Hlc kv Hin).
+    repeat split; assumption. }
   assert (HP : Forall (fun kv => pair_readable kv /\
               (is_u kv = true -> e_ver e = V1b1 /\ validate_fallback (snd kv) = (true, false))) P).
   { apply Forall_forall. intros kv Hin. rewrite Forall_forall in Hsz. destruct (Hsz kv Hin) as [Hk Hx].
@@ -310,7 +363,8 @@ Lemma write_inv (e : exchange) (bs : bytes) : write e = Ok bs ->
              ++ be 3 (lenN hdr) ++ e_sig e ++ hdr ++ e_payload e
     end.
 Proof.
-  unfold write. destruct (encode_exchange_headers e) as [hdr| | |]; cbn [bind]; try discriminate.
+  intros H0. apply write_ok_body in H0. destruct H0 as [_ H0]. revert H0.
+  unfold write_body. destruct (encode_exchange_headers e) as [hdr| | |]; cbn [bind]; try discriminate.
   intros H. exists hdr. split; [reflexivity|]. rewrite !be_encode_len in H by lia.
   change (2 ^ (8 * 3)) with 16777216 in H. change (2 ^ (8 * 2)) with 65536 in H.
   change (N.to_nat 3) with 3%nat in H. change (N.to_nat 2) with 2%nat in H.
@@ -345,13 +399,13 @@ Proof.
 Qed.
 
 (* C02 write_err_iff (b2 / b3) *)
-Theorem write_err_iff (e : exchange) : e_ver e <> V1b1 ->
-  (write e = Err <->
+Lemma write_body_err_iff (e : exchange) : e_ver e <> V1b1 ->
+  (write_body e = Err <->
    encode_exchange_headers e = Err \/
    exists hdr, encode_exchange_headers e = Ok hdr /\
      (65536 <= lenN (e_uri e) \/ 16384 < lenN (e_sig e) \/ 524288 < lenN hdr)).
 Proof.
-  intros Hv. unfold write. pose proof (encode_exchange_headers_ok_or_err e) as Hoe.
+  intros Hv. unfold write_body. pose proof (encode_exchange_headers_ok_or_err e) as Hoe.
   destruct (encode_exchange_headers e) as [hdr| | |]; cbn [bind]; try contradiction.
   2:{ split; [intros _; left; reflexivity|reflexivity]. }
   rewrite !be_encode_len by lia.
@@ -374,6 +428,19 @@ Proof.
   - intros [H|(h & E & H)]; [discriminate|]. inversion E; subst. exact H.
   - intros H. right. exists hdr. split; [reflexivity|exact H].
   - intros [H|(h & E & H)]; [discriminate|]. inversion E; subst. exact H.
+Qed.
+
+Theorem write_err_iff (e : exchange) : e_ver e <> V1b1 ->
+  (write e = Err <->
+   write_refuses e = true \/
+   encode_exchange_headers e = Err \/
+   exists hdr, encode_exchange_headers e = Ok hdr /\
+     (65536 <= lenN (e_uri e) \/ 16384 < lenN (e_sig e) \/ 524288 < lenN hdr)).
+Proof.
+  intros Hv. rewrite write_unfold. destruct (write_refuses e).
+  - split; [intros _; left; reflexivity|reflexivity].
+  - rewrite (write_body_err_iff e Hv). split; [intros H; right; exact H|].
+    intros [H|H]; [discriminate H|exact H].
 Qed.
 
 (* ---- the header block, read back ------------------------------------------------------- *)
@@ -403,10 +470,13 @@ Definition final_state (e : exchange) : hstate :=
      h_status := e_status e; h_resp := canon_headers (e_resph e); h_taint := false |}.
 
 Lemma decode_written_headers (e : exchange) (hdr : bytes) :
-  readable e = true -> encode_exchange_headers e = Ok hdr -> lenN hdr < 16777216 ->
+  readable e = true -> fst (validate_fallback (e_uri e)) = true ->
+  (e_ver e = V1b2 -> existsb (fun nv => bytes_eqb (lower (fst nv)) (s2b ":url")) (e_reqh e) = false) ->
+  encode_exchange_headers e = Ok hdr -> lenN hdr < 16777216 ->
   decode_exchange_headers (e_ver e) hdr (start_state e) = Ok (final_state e).
 Proof.
-  intros Hr Henc Hlen. destruct (readable_inv e Hr) as (Hurl & Hs & Hz & Ht & Hv).
+  intros Hr Hacc Hnourl Henc Hlen. destruct (readable_inv e Hr) as (Hdec & Hs & Hz & Ht & Hv).
+  pose proof (validate_fallback_pair _ Hacc Hdec) as Hurl.
   pose proof (headers_ok_inv _ Hs) as Hsn.
   destruct (encode_headers_inv e hdr Henc) as (rs & Ers & Hshape).
   unfold decode_exchange_headers. cbv zeta.
@@ -439,7 +509,8 @@ Proof.
     rewrite Ehdr. rewrite decode_encode_array_header by (unfold two64; lia). cbn [bind].
     change (negb (2 =? 2)) with false. cbv iota.
     destruct (read_request_map e rq rs (start_state e) fuel 16777216) as (m & r & D1 & D2);
-      try assumption; try (rewrite Ev; discriminate); try reflexivity; try (unfold two63; lia).
+      try assumption; try (rewrite Ev; discriminate); try reflexivity; try (unfold two63; lia);
+      try (intros _; apply Hnourl; reflexivity).
     { intros _. unfold start_state. rewrite Ev. reflexivity. }
     rewrite Ev in D2. rewrite D1. cbn [bind]. rewrite D2. cbn [bind].
     destruct (read_response_map e rs [] {| h_method := e_method e; h_uri := e_uri e;
@@ -473,9 +544,11 @@ Theorem write_read (e : exchange) (bs : bytes) :
   readable e = true -> write e = Ok bs -> read bs = Ok (canon_exchange e).
 Proof.
   intros Hr Hw. destruct (write_inv e bs Hw) as (hdr & Henc & Hshape).
-  destruct (readable_inv e Hr) as (Hurl & _ & _ & Ht & _).
+  destruct (readable_inv e Hr) as (Hund & _ & _ & Ht & _).
+  pose proof (write_ok_url e bs Hw) as Hacc.
+  pose proof (validate_fallback_pair _ Hacc Hund) as Hurl.
   assert (Hhl : lenN hdr < 16777216) by (destruct (e_ver e); lia).
-  pose proof (decode_written_headers e hdr Hr Henc Hhl) as Hdec.
+  pose proof (decode_written_headers e hdr Hr Hacc (write_ok_no_url_key e bs Hw) Henc Hhl) as Hdec.
   unfold read, read_prologue.
   destruct (e_ver e) eqn:Ev.
   - destruct Hshape as (Hsl & _ & Ebs). subst bs.
@@ -517,6 +590,23 @@ Proof.
     unfold start_state in Hdec. rewrite Ev in Hdec. rewrite Hdec. cbn [bind final_state].
     unfold canon_exchange. cbn [e_ver e_uri e_method e_reqh e_status e_resph e_sig e_payload e_taint
       h_method h_uri h_req h_status h_resp h_taint]. rewrite Ev, Ht. reflexivity.
+Qed.
+
+(* b3 stores neither the method nor the request headers: whatever they are in
+   memory, the file is that of the exchange with method GET and no request
+   headers, and that is what comes back *)
+Lemma write_b3_norm (e : exchange) : e_ver e = V1b3 -> write (b3_norm e) = write e.
+Proof.
+  intros Ev. rewrite !write_unfold.
+  unfold write_refuses, write_body, encode_exchange_headers, encode_response_map.
+  cbn [b3_norm e_ver e_uri e_status e_resph e_sig e_payload e_reqh]. rewrite Ev. reflexivity.
+Qed.
+
+Theorem b3_request_part_dropped (e : exchange) (bs : bytes) :
+  e_ver e = V1b3 -> readable (b3_norm e) = true -> write e = Ok bs ->
+  read bs = Ok (canon_exchange (b3_norm e)).
+Proof.
+  intros Ev Hr Hw. apply write_read; [exact Hr|]. rewrite (write_b3_norm e Ev). exact Hw.
 Qed.
 
 (* field by field, as the property lists them *)
@@ -576,6 +666,27 @@ Proof.
   intros [n vs]. cbn [canon_field fst snd join_comma]. rewrite lower_canonical_key, lower_idem. reflexivity.
 Qed.
 
+Lemma existsb_map {A B} (p : B -> bool) (f : A -> B) (l : list A) :
+  existsb p (map f l) = existsb (fun a => p (f a)) l.
+Proof. induction l as [|x t IH]; [reflexivity|]. cbn [map existsb]. rewrite IH. reflexivity. Qed.
+
+Lemma existsb_names_canon (p : bytes -> bool) (h : headers) :
+  (forall n, p (canonical_key (lower n)) = p n) ->
+  existsb (fun nv => p (fst nv)) (canon_headers h) = existsb (fun nv => p (fst nv)) h.
+Proof.
+  intros Hp. unfold canon_headers. rewrite existsb_map.
+  rewrite (existsb_perm _ _ _ (isort_perm lt_name h)).
+  induction h as [|[n vs] t IH]; [reflexivity|]. cbn [existsb]. rewrite IH. f_equal.
+  exact (Hp n).
+Qed.
+
+Lemma write_refuses_canon (e : exchange) : write_refuses (canon_exchange e) = write_refuses e.
+Proof.
+  unfold write_refuses. cbn [canon_exchange e_uri e_ver e_reqh].
+  rewrite (existsb_names_canon (fun n => bytes_eqb (lower n) (s2b ":url"))); [reflexivity|].
+  intros n. rewrite lower_canonical_key, lower_idem. reflexivity.
+Qed.
+
 Theorem write_canon (e : exchange) : write (canon_exchange e) = write e.
 Proof.
   assert (Hq : encode_request_map (canon_exchange e) = encode_request_map e).
@@ -584,7 +695,8 @@ Proof.
   assert (Hs : encode_response_map (canon_exchange e) = encode_response_map e).
   { unfold encode_response_map. cbn [canon_exchange e_status e_resph].
     apply enc_map_perm. apply perm_skip, header_entries_canon. }
-  unfold write, encode_exchange_headers. rewrite Hq, Hs. reflexivity.
+  rewrite !write_unfold, write_refuses_canon. unfold write_body, encode_exchange_headers.
+  rewrite Hq, Hs. reflexivity.
 Qed.
 
 Lemma canon_go_tchar (s : bytes) : forall u,
@@ -598,10 +710,21 @@ Proof.
     repeat match goal with |- context [if ?b then _ else _] => destruct b eqn:? end; lia.
 Qed.
 
+Lemma canon_go_ascii (s : bytes) : forall u,
+  is_ascii s = true -> is_ascii (canon_go s u) = true.
+Proof.
+  unfold is_ascii. induction s as [|c r IH]; intros u Hs; [reflexivity|].
+  cbn [forallb canon_go] in *. apply andb_true_iff in Hs. destruct Hs as [Hc Hr].
+  rewrite (IH _ Hr), andb_true_r.
+  unfold is_lower_b, is_upper_b.
+  destruct u; cbn [andb negb];
+    repeat match goal with |- context [if ?b then _ else _] => destruct b eqn:? end; lia.
+Qed.
+
 Lemma name_ok_canonical (n : bytes) : name_ok n = true -> name_ok (canonical_key (lower n)) = true.
 Proof.
-  intros Hn. unfold name_ok in *. pose proof (name_lower_tchar n Hn) as Hl.
-  unfold canonical_key. rewrite Hl. apply canon_go_tchar. exact Hl.
+  intros Hn. unfold name_ok in *. pose proof (is_ascii_lower n Hn) as Hl.
+  unfold canonical_key. destruct (forallb is_tchar (lower n)); [apply canon_go_ascii|]; exact Hl.
 Qed.
 
 Lemma headers_ok_canon (h : headers) : headers_ok h = true -> headers_ok (canon_headers h) = true.
